@@ -115,27 +115,34 @@ theorem ArgsText.length_le_flatten {css : List (List Cell)} {text : Bytes} (h : 
     have := ht.cells.length_pos
     simp only [List.length_cons, List.flatten_cons, List.length_append]; omega
 
+/-- `can_precede_range` is defined on the cells of an argument (false for an array) -/
+theorem canPrecedeRange_argCells {cs : List Cell} (h : ArgCells cs) : ∃ b, canPrecedeRange cs = .ok b := by
+  cases h with
+  | scalar c hsc => exact ⟨true, canPrecedeRange_scalar c [] hsc⟩
+  | array ety es _ => exact ⟨false, by simp [canPrecedeRange, deref, bind, Except.bind, pure, Except.pure]⟩
+
 /-- the scanner's loop reads a text of arguments back as their cells -/
 theorem scanLoop_argsText {css : List (List Cell)} {text : Bytes} (h : ArgsText css text) :
-    ∀ (fuel n i : Nat) (done : List Cell) (rd : Nat), n = i + css.flatten.length → css.length + 1 ≤ fuel →
-      scanArgValsLoop fuel text n i done rd = .ok (rd + text.length, done ++ css.flatten) := by
+    ∀ (fuel n i : Nat) (pok : Bool) (done : List Cell) (rd : Nat), n = i + css.flatten.length → css.length + 1 ≤ fuel →
+      scanArgValsLoop fuel text n i pok done rd = .ok (rd + text.length, done ++ css.flatten) := by
   induction h with
   | nil =>
-    intro fuel n i done rd hn hf
+    intro fuel n i pok done rd hn hf
     cases fuel with
     | zero => omega
     | succ f =>
       simp at hn
       simp [scanArgValsLoop, hn, pure, Except.pure]
   | one t cs ht =>
-    intro fuel n i done rd hn hf
+    intro fuel n i pok done rd hn hf
     cases fuel with
     | zero => omega
     | succ f =>
       cases f with
       | zero => simp at hf
       | succ g =>
-        have hscan := ht.scan [] t.length done.reverse i sep_nil
+        have hscan := ht.scan [] t.length done.reverse (if pok then i else 0) sep_nil
+        obtain ⟨b, hcpr⟩ := canPrecedeRange_argCells ht.cells
         simp only [List.append_nil] at hscan
         have hpos := ht.cells.length_pos
         simp only [List.flatten_cons, List.flatten_nil, List.append_nil] at hn ⊢
@@ -145,18 +152,19 @@ theorem scanLoop_argsText {css : List (List Cell)} {text : Bytes} (h : ArgsText 
         simp only [List.append_nil] at hnao
         simp only [hlt, ↓reduceIte, hscan, bind, Except.bind, advance, Nat.le_refl, List.drop_length,
           hnao, ne_eq, not_true_eq_false, List.length_nil,
-          skipSpaceComments_nil, List.drop_zero]
+          skipSpaceComments_nil, List.drop_zero, hcpr]
         unfold scanArgValsLoop
         have : ¬ (i + cs.length < n) := by omega
         simp [this, pure, Except.pure]
   | cons t cs sep css text ht hsep hne hrest ih =>
-    intro fuel n i done rd hn hf
+    intro fuel n i pok done rd hn hf
     cases fuel with
     | zero => omega
     | succ f =>
       have hstart := hrest.start hne
       have hS := sep_of_next sep text hsep hstart
-      have hscan := ht.scan (sep ++ text) (t ++ (sep ++ text)).length done.reverse i hS
+      have hscan := ht.scan (sep ++ text) (t ++ (sep ++ text)).length done.reverse (if pok then i else 0) hS
+      obtain ⟨b, hcpr⟩ := canPrecedeRange_argCells ht.cells
       have hpos := ht.cells.length_pos
       simp only [List.length_cons, List.flatten_cons, List.length_append] at hn hf
       unfold scanArgValsLoop
@@ -165,13 +173,25 @@ theorem scanLoop_argsText {css : List (List Cell)} {text : Bytes} (h : ArgsText 
         simp [advance]
       have hnao := nextArgOffset_argCells cs.length [] ht.cells
       simp only [List.append_nil] at hnao
-      simp only [hlt, ↓reduceIte, hscan, bind, Except.bind, hadv, hnao, ne_eq, not_true_eq_false]
+      simp only [hlt, ↓reduceIte, hscan, bind, Except.bind, hadv, hnao, ne_eq, not_true_eq_false, hcpr]
       rw [skipSpaceComments_sep _ sep text hsep hstart]
       simp only [List.drop_left]
-      rw [ih f n (i + cs.length) (done ++ cs) (rd + t.length + sep.length) (by omega) (by omega)]
+      rw [ih f n (i + cs.length) b (done ++ cs) (rd + t.length + sep.length) (by omega) (by omega)]
       simp only [List.length_append, List.append_assoc, List.flatten_cons]
       congr 2
       omega
+
+/-- `rtosc_scan_arg_vals` reads a text of arguments back as their cells -/
+theorem scanArgVals_argsText {css : List (List Cell)} {text : Bytes} (h : ArgsText css text) :
+    scanArgVals text css.flatten.length = .ok (text.length, css.flatten) := by
+  unfold scanArgVals
+  have hsk : skipSpaceComments (text.length + 1) text = .ok 0 := by
+    by_cases hne : css = []
+    · subst hne; cases h; exact skipSpaceComments_nil _
+    · exact skipSpaceComments_tokStart _ text (h.start hne)
+  have := scanLoop_argsText h (css.flatten.length + 1) css.flatten.length 0 true [] 0 (by simp)
+    (by have := h.length_le_flatten; omega)
+  simpa [hsk, bind, Except.bind] using this
 
 /-- the checker's loop counts the cells of a text of arguments -/
 theorem countLoop_argsText {css : List (List Cell)} {text : Bytes} (h : ArgsText css text) :
@@ -455,9 +475,7 @@ theorem list_roundtrip_args (opt : POpt) (argss : List (List Cell))
     simpa using hrun
   · rw [hout]; exact countPrintedArgVals_argsText htt
   · rw [hout]
-    unfold scanArgVals
-    have := scanLoop_argsText htt (argss.flatten.length + 1) argss.flatten.length 0 [] 0 (by simp) (by omega)
-    simpa using this
+    exact scanArgVals_argsText htt
 
 /-- **Tier 3 (partial), whole messages.** -/
 theorem message_roundtrip_args (opt : POpt) (addr : Bytes) (argss : List (List Cell)) (adrsize : Nat)
@@ -532,9 +550,8 @@ theorem message_roundtrip_args (opt : POpt) (addr : Bytes) (argss : List (List C
       takeWhile_notspace addr (sep ++ body) hasp hrest]
     have htake : addr.take adrsize = addr := List.take_of_length_le (by omega)
     simp only [htake, List.drop_left, hskip]
-    have := scanLoop_argsText htt (argss.flatten.length + 1) argss.flatten.length 0 [] 0 (by simp) (by omega)
-    unfold scanArgVals
-    simp only [this, List.nil_append, Nat.zero_add]
+    have := scanArgVals_argsText htt
+    simp only [this, Nat.zero_add]
     congr 2
     simp only [List.length_append]
     omega
